@@ -165,6 +165,44 @@ def run_slice_mon(job: dict, prop: str, obligations: Callable[[Counter], int],
                                                       "replay": {"scn": scn_v, "sched": rsched}})
             elif len(res["samples"]) < 2 and nontrivial and i % 7 == 0:
                 res["samples"].append(compact_sample(scn_v, tr, a, sched))
+    # ---- a sample of the same scenarios over real processes (engine B): same oracles over the
+    # event list merged by the system-wide monotonic clock -----------------------------------
+    n_remote = job.get("remote_cases", 0)
+    if n_remote:
+        from ..remotelab import merged_trace, run_remote
+        for j in range(job["windex"], n_remote, job["nworkers"]):
+            pname = profiles[j % len(profiles)]
+            prof = dict(PROFILES[pname])
+            prof["n_sims"] = (2, 4)
+            scn = gen_scenario(H(seed, "remote", pname, j) % (1 << 48), prof)
+            scn["config"]["debug"] = False
+            if job.get("force_lazy") is not None:
+                scn["config"]["lazy"] = job["force_lazy"]
+            rt = run_remote(scn, max_sleep=0.003, sleep_seed=H(seed, j) % 1000)
+            res["evaluations"] += 1
+            C["remote_runs"] += 1
+            if rt["outcome"]["kind"] == "watchdog":
+                C["remote_watchdog_inconclusive"] += 1
+                continue
+            tr = merged_trace(rt)
+            a = Analysis(scn, tr)
+            C["remote_steps"] += a.stats.get("steps", 0)
+            if tr["stats"]["max_inflight_sims"] >= 2:
+                C["remote_runs_with_2plus_sims_in_flight"] += 1
+            viol = list(a.viol.get(prop, []))
+            if post is not None:
+                viol.extend(post(scn, tr, a))
+            for vv in viol:
+                kf = findings.match(prop, vv, KF)
+                if kf is not None:
+                    C["known_" + kf["id"]] += 1
+                    continue
+                C["unlisted_violations"] += 1
+                C["violation_" + vv["kind"]] += 1
+                if n_unlisted_stored < job.get("max_viol", 12):
+                    n_unlisted_stored += 1
+                    res["violations"].append({"v": dict(vv, profile=pname, transport="remote"),
+                                              "replay": {"scn": scn, "remote": True}})
     res["hashes"] = list(res["hashes"])
     res["counters"] = dict(C)
     return res
@@ -172,7 +210,11 @@ def run_slice_mon(job: dict, prop: str, obligations: Callable[[Counter], int],
 
 def replay_mon(rep: dict, prop: str, post=None) -> List[dict]:
     r = rep["replay"]
-    tr = run_case(r["scn"], dict(r["sched"]))
+    if r.get("remote"):
+        from ..remotelab import merged_trace, run_remote
+        tr = merged_trace(run_remote(r["scn"], max_sleep=0.003))
+    else:
+        tr = run_case(r["scn"], dict(r["sched"]))
     a = Analysis(r["scn"], tr)
     viol = list(a.viol.get(prop, []))
     if post is not None:
